@@ -431,3 +431,15 @@ func exemptViaOwners(q *ssaq.Q, f *ssa.Function, table map[string]string, what s
 	}
 	return why, true
 }
+
+// frameBlocks: the blocks of f and of the helpers that did not exist on the
+// reference tree and are reached from f through such helpers only. A rule that
+// judges "every X in f" iterates over these, so that an X moved into a new
+// helper is still judged (and one that looks for "an X in f" still finds it).
+func frameBlocks(f *ssa.Function) []*ssa.BasicBlock {
+	var out []*ssa.BasicBlock
+	for _, fr := range ssaq.Frames(f) {
+		out = append(out, fr.Fn.Blocks...)
+	}
+	return out
+}
